@@ -19,7 +19,25 @@ class MatC:
         self.rows = [list(r) for r in rows]
 
 
+_OPAQUE_MATS = {}
+
+
+def _opaque_as_matrix(eng, a, n):
+    """an unknown value read from lazily initialised state (OpaqueDict entry `<label>_val!k`), used as an n x n matrix: an
+    arbitrary matrix (one per unknown value), e.g. a memoised block that an earlier call may have stored"""
+    if z3.is_expr(a) and z3.is_const(a) and "_val!" in a.decl().name():
+        key = (id(eng), a.decl().name(), n)
+        if key not in _OPAQUE_MATS:
+            _OPAQUE_MATS[key] = MatC([[eng.fresh("opaque_m", "Real") for _ in range(n)] for _ in range(n)])
+        return _OPAQUE_MATS[key]
+    return None
+
+
 def _matmul(eng, op, a, b):
+    if op == "@" and isinstance(b, Vec) and not isinstance(a, (MatC, Vec)):
+        m = _opaque_as_matrix(eng, a, len(b.items))
+        if m is not None:
+            a = m
     if op != "@":
         if isinstance(a, MatC) or isinstance(b, MatC):
             raise OutsideSubset("only @ on small matrices")
@@ -133,8 +151,15 @@ def quarter_result(eng, base):
     for par in eng.iter_concrete(env.lookup("elems")):
         kids = []
         for k in range(4):
-            kids.append(Obj("DummyElement", {"__module__": HE, "ghost_id": 4 * eid(par) + k, "parent_ghost": par, "k": k},
-                            label="{}.c{}".format(par.label, k)))
+            f = {"__module__": HE, "ghost_id": 4 * eid(par) + k, "parent_ghost": par, "k": k}
+            # geometry of the quarter (time half k // 2, space half k % 2; proved for uniform_refinement itself): lets a changed
+            # estimator that keys something on sizes / intervals / pieces be executed instead of stopping outside the subset
+            if "h_t" in par.fields:
+                ht, hx = to_real(par.fields["h_t"]) / 2, to_real(par.fields["h_x"]) / 2
+                t0, x0 = to_real(par.fields["time_interval"][0]), to_real(par.fields["space_interval"][0])
+                ta, xa = t0 + (k // 2) * ht, x0 + (k % 2) * hx
+                f.update(h_t=ht, h_x=hx, time_interval=(ta, ta + ht), space_interval=(xa, xa + hx), gamma_space=par.fields["gamma_space"])
+            kids.append(Obj("DummyElement", f, label="{}.c{}".format(par.label, k)))
         out.append(VList(kids))
     return VList(out)
 
@@ -143,8 +168,13 @@ def sc_hier(eng):
     def build(eng):
         elems = []
         for i in range(2):
+            ht, hx, t0, x0 = z3.Real("ht_%d" % i), z3.Real("hx_%d" % i), z3.Real("t0_%d" % i), z3.Real("x0_%d" % i)
+            eng.assume(z3.And(ht > 0, hx > 0))
             e = Obj("Element", {"__module__": MESH, "ghost_id": z3.IntVal(i),
-                                "levels": (z3.Int("lt_%d" % i), z3.Int("lx_%d" % i))}, label="E%d" % i)
+                                "levels": (z3.Int("lt_%d" % i), z3.Int("lx_%d" % i)), "level_time": z3.Int("lt_%d" % i),
+                                "level_space": z3.Int("lx_%d" % i), "h_t": ht, "h_x": hx, "time_interval": (t0, t0 + ht),
+                                "space_interval": (x0, x0 + hx), "gamma_space": Ref("Piece", z3.Int("piece_%d" % i))},
+                    label="E%d" % i)
             elems.append(e)
         phi = Vec([z3.Real("Phi_0"), z3.Real("Phi_1")])
         which = eng.choose(4, "data")       # g and M0 present or absent
